@@ -158,7 +158,15 @@ class Gen:
                 v = r.choice([(i, i + 1), i, 'm' + str(i)])
             if v not in vals:
                 vals.append(v)
-        self.decl['enums'].append([name, [ENC.enc(v) for v in vals]])
+        ent = [name, [ENC.enc(v) for v in vals]]
+        # mix-in enums (`class E(str, Enum)`): their members are ALSO plain str/int instances, which other union members
+        # and conditions would see; the model does not represent that, so they are generated outside unions/conditions only
+        if getattr(self, '_no_mixin', 0) == 0:
+            if all(type(v) is str for v in vals) and r.random() < 0.4:
+                ent.append('str')
+            elif all(type(v) is int for v in vals) and r.random() < 0.3:
+                ent.append('int')
+        self.decl['enums'].append(ent)
         return {'enum': name}
 
     def gen_sub(self):
@@ -168,6 +176,13 @@ class Gen:
         return {'sub': [name, base]}
 
     def gen_union(self, depth):
+        self._no_mixin = getattr(self, '_no_mixin', 0) + 1
+        try:
+            return self._gen_union(depth)
+        finally:
+            self._no_mixin -= 1
+
+    def _gen_union(self, depth):
         r = self.r
         n = r.randint(2, 4)
         if r.random() < 0.5:
@@ -212,6 +227,13 @@ class Gen:
         return {'user': [uid, arg], 'name': f'{uid}{arg}'}
 
     def gen_annotated(self, depth):
+        self._no_mixin = getattr(self, '_no_mixin', 0) + 1
+        try:
+            return self._gen_annotated(depth)
+        finally:
+            self._no_mixin -= 1
+
+    def _gen_annotated(self, depth):
         r = self.r
         inner = self.gen_type(depth + 1) if r.random() < 0.5 else r.choice(['int', 'float', 'str', {'seq': ['list', 'int']}])
         conds = []
@@ -368,7 +390,7 @@ class Gen:
         if k == 'lit':
             return ENC.dec(r.choice(v))
         if k == 'enum':
-            vals = next(vs for n, vs in self.decl['enums'] if n == v)
+            vals = next(e[1] for e in self.decl['enums'] if e[0] == v)
             x = ENC.dec(r.choice(vals))
             return list(x) if isinstance(x, tuple) and r.random() < 0.5 else x
         if k == 'sub':
@@ -1145,6 +1167,8 @@ def scenarios_tuplelayout(seed, n, op='from_data'):
             q = r.random()
             if q < 0.25:
                 f['spec'] = {'init': False}
+                if r.random() < 0.5:
+                    f['spec']['exclude'] = True
                 f['default'] = {'value': ENC.enc(ge.valid(ty, 2))}
             elif q < 0.35:
                 f['spec'] = {'kw_only': True}
